@@ -215,7 +215,7 @@ impl World for Experiment {
                         let disk = SimDisk::new(IoPlan::default());
                         let path = scratch_dir().join("ref.cbor");
                         let _ = with_disk(&disk, || state.log().to_cbor(&path));
-                        let bytes = disk.state.lock().unwrap().files.get(&path).cloned().unwrap_or_default();
+                        let bytes = std::fs::read(&path).unwrap_or_default();
                         match decode_cbor(&bytes) {
                             Ok(l) => {
                                 ref_logs.insert(format!("{}_{run}.cbor", spec.name), l);
@@ -232,8 +232,7 @@ impl World for Experiment {
             let disk = SimDisk::new(IoPlan::default());
             let path = scratch_dir().join("ref.ron");
             let _ = with_disk(&disk, || config.to_ron(&path));
-            let b = disk.state.lock().unwrap().files.get(&path).cloned().unwrap_or_default();
-            b
+            std::fs::read(&path).unwrap_or_default()
         };
         let reference = ref_map.lock().unwrap().clone();
 
@@ -245,8 +244,10 @@ impl World for Experiment {
             // the folder was used by an earlier experiment: its files are still there
             let _ = std::fs::create_dir_all(&folder);
             let _ = std::fs::write(folder.join("configuration.ron"), vec![b'#'; 5000]);
-            for spec in &c.problems {
-                let _ = std::fs::write(folder.join(format!("{}_0.cbor", spec.name)), vec![b'#'; 9000]);
+            if c.log {
+                for spec in &c.problems {
+                    let _ = std::fs::write(folder.join(format!("{}_0.cbor", spec.name)), vec![b'#'; 9000]);
+                }
             }
             bump(&mut out.counters, "fault:data folder holding the files of an earlier experiment", 1);
         }
@@ -268,11 +269,9 @@ impl World for Experiment {
                 Err(p) => Err(format!("panic: {p}")),
             };
             let st = disk.state.lock().unwrap();
-            let files = st
-                .files
-                .iter()
-                .map(|(p, b)| (p.file_name().map(|n| n.to_string_lossy().to_string()).unwrap_or_default(), b.clone()))
-                .collect();
+            // what the folder holds in the end (accepted bytes are written through to real files,
+            // so renames and removals done without the seam are part of the picture)
+            let files = real_files(&folder2);
             let digests = map.lock().unwrap().clone();
             ExpOutcome {
                 result,
